@@ -109,6 +109,15 @@ def _contact(draw):
 
 
 @st.composite
+def _arm(draw):
+    """A bar hinged to the origin by a revolute joint whose tip (a sphere) rests on the ground, with a motor on the
+    joint and optional friction: bilateral constraint, actuator and persistent contact act on one body."""
+    return {"kind": "arm", "L": draw(gen.f(0.6, 2.0)), "mass": draw(gen.f(0.5, 4.0)), "radius": draw(gen.f(0.05, 0.3)),
+            "T": draw(gen.f(-6.0, 6.0)), "mu": draw(st.sampled_from([0.0, 0.3, 0.8])), "drive": draw(st.sampled_from(["Motor", "PD", None])),
+            "gx": draw(gen.f(-2.0, 2.0)), "reject": None}
+
+
+@st.composite
 def _rod_reject(draw):
     rs = draw(rodbuild.rod_spec(max_nel=2))
     rs["constraints"] = draw(st.sampled_from([[0], [0, 1, 2], [1, 2], [0, 1, 2, 3, 4, 5]]))
@@ -117,7 +126,7 @@ def _rod_reject(draw):
 
 
 def strategy(tier):
-    return st.one_of(_chain(), _chain(), _contact(), _contact(), _rod_reject())
+    return st.one_of(_chain(), _chain(), _contact(), _contact(), _rod_reject(), _arm())
 
 
 # --------------------------------------------------------------------------------------
@@ -180,6 +189,21 @@ def build_system(spec):
         if "actuator" in spec:
             system.add(sysbuild.make_actuator(spec["actuator"], joints[0]))
             info["has_special"] = True
+    elif kind == "arm":
+        from cardillo.discrete import RigidBody
+
+        L, m, r = spec["L"], spec["mass"], spec["radius"]
+        bar = RigidBody(m, np.diag([0.01 * m, m * L * L / 12, m * L * L / 12]), q0=np.array([L / 2, 0.0, r, 1.0, 0, 0, 0]), name="bar")
+        ground = Frame(name="ground")
+        system.add(bar, ground)
+        hinge = sysbuild.make_joint({"type": "Revolute", "axis": 1, "r_OJ0": [0.0, 0.0, r], "psi_J": None}, system.origin, bar)
+        system.add(hinge)
+        system.add(Force(np.array([spec["gx"], 0.0, -G]) * m, bar, name="gravity"))
+        system.add(Sphere2Plane(ground, bar, mu=spec["mu"], r=r, B_r_CP=np.array([L / 2, 0.0, 0.0]), e_N=0.0, name="tip_contact"))
+        if spec["drive"]:
+            system.add(sysbuild.make_actuator({"type": spec["drive"], "amp": [spec["T"], 0.3], "w": 1.0, "kp": 5.0, "kd": 0.5}, hinge))
+        info["has_constraint"] = True
+        info["has_special"] = True
     elif kind == "contact":
         psiR = np.array(spec.get("placement", [0.0, 0.0, 0.0]), dtype=float)
         R0 = gen._exp(psiR)
